@@ -560,7 +560,11 @@ class ContentSecurityPolicySourceHost(ParsableBase, Serializable):
 
         parser.parse_string_until_separator_or_end('value', ' ')
 
-        return cls(**parser), parser.parsed_length
+        source_host = cls(**parser)
+        if not str(source_host.value):  # for instance ':', which urllib3 parses to an empty URL
+            raise InvalidValue(parser['value'], cls, 'value')
+
+        return source_host, parser.parsed_length
 
     def compose(self):
         composer = ComposerText()
